@@ -214,7 +214,7 @@ SetModelCore(m, ok) ==
 
 \* generated rules carry their body tag in the description ("tag-N") and a
 \* salience that is a fixed function of the tag
-SalOf(t) == (t % 7) - 3
+SalOf(t) == ((t \div 10) % 10) - 3     \* tag = version * 100 + salience code * 10 + rule index
 
 \* queries (only between updates): kind, argument, answer (numbers; booleans as 0/1)
 QueryCore(kind, arg, res, err) ==
